@@ -102,9 +102,11 @@ func (x *c04) r7() {
 		}
 		if ea != nil {
 			if add, ok := stripConv(ea).(*ssa.BinOp); ok && add.Op == token.ADD {
-				if phi, ok := stripConv(add.X).(*ssa.Phi); ok {
-					if bt, ok := phi.Type().Underlying().(*types.Basic); ok && bt.Kind() == types.Uintptr {
-						tablePhi = phi
+				for _, op := range []ssa.Value{add.X, add.Y} { // (the sum in either order)
+					if phi, ok := stripConv(op).(*ssa.Phi); ok && tablePhi == nil {
+						if bt, ok := phi.Type().Underlying().(*types.Basic); ok && bt.Kind() == types.Uintptr {
+							tablePhi = phi
+						}
 					}
 				}
 			}
@@ -148,11 +150,20 @@ func (x *c04) r7() {
 			entryAddr = ptrFromUintptr(call.Common().Args[1])
 		}
 		add, ok := stripConv(entryAddr).(*ssa.BinOp)
-		if msg == "" && (!ok || add.Op != token.ADD || stripConv(add.X) != ssa.Value(tablePhi)) {
+		var idxOp ssa.Value
+		if ok && add.Op == token.ADD {
+			switch {
+			case stripConv(add.X) == ssa.Value(tablePhi):
+				idxOp = add.Y
+			case stripConv(add.Y) == ssa.Value(tablePhi):
+				idxOp = add.X
+			}
+		}
+		if msg == "" && idxOp == nil {
 			msg = "the entry address is not tableAddr + index*8"
 		}
 		if msg == "" {
-			sh, ok := stripConv(add.Y).(*ssa.BinOp)
+			sh, ok := stripConv(idxOp).(*ssa.BinOp)
 			if !ok || sh.Op != token.SHL {
 				msg = "the entry index is not scaled by the pointer size"
 			} else if k, ok := constUint64(sh.Y); !ok || k != ptrShift {
